@@ -1,12 +1,26 @@
 """C13 - multipart forms parse to exactly the parts that were encoded, however consumed."""
 PROP = 'C13'
-LEAN_MODULES = ['FalconModel.Multipart', 'FalconModel.PeekProofs', 'FalconModel.MultipartProofs']
+LEAN_MODULES = ['FalconModel.Multipart', 'FalconModel.PeekProofs', 'FalconModel.MultipartProofs', 'FalconModel.ReaderPublic',
+                'FalconModel.MultipartFlat', 'FalconModel.MultipartFlatProofs', 'FalconModel.ReaderMap', 'FalconModel.MultipartBridge']
 DRIVERS = ['mpdriver']
 THEOREMS = [
-    # The cursor-level parse/encode theorems are not proved yet (see PARTIAL).  Mp.next (FalconModel/Multipart.lean) is written
-    # directly over the polymorphic reader model Rd.R; every reader call it makes is covered by one of these refinement
-    # theorems (FalconModel/ReaderProofs, ReadUntilProofs, RULoop, ReaderHistory, PeekProofs), which is where the
-    # independence from transport chunking comes from.
+    # ---- cursor level (FalconModel/MultipartFlat.lean: reference encoder Mf.encodeForm, flat parser Mf.next / parseAll / parseFlat;
+    #      proofs in FalconModel/MultipartFlatProofs.lean)
+    'Mf.parse_encode', 'Mf.parse_encode_noLimits', 'Mf.parseAll_encode', 'Mf.encode_eq', 'Mf.parseLoop_encoded', 'Mf.next_part', 'Mf.next_closing',
+    'Mf.untilConsume_safe', 'Mf.untilConsume_short', 'Mf.contentOf_safe', 'Mf.stopAt_safe', 'Mf.parseHeaders_block', 'Mf.splitAux_join',
+    'Mf.expect_pass', 'Mf.expect_append',
+    'Mf.headers_size_limit_exact', 'Mf.headers_cap_exact', 'Mf.headers_cap_none', 'Mf.part_count_limit_exact', 'Mf.part_count_limit_encoded',
+    'Mf.parser_terminates', 'Mf.invalid_is_parse_error_only', 'Mf.next_part_frame', 'Mf.next_tooMany_frame', 'Mf.parseHeaders_eq_L',
+    # ---- the bridge Mp.next (buffered reader, any chunking, any consumption) = Mf (flat text): FalconModel/MultipartBridge.lean,
+    #      FalconModel/ReaderMap.lean (naturality of every reader operation in its source)
+    'Mf.next_refines_flat', 'Mf.next_refines_flat_fresh', 'Mf.consumption_independent', 'Mf.consumption_full_read', 'Mf.chunking_independent',
+    'Mf.chunking_independent_parts', 'Mf.impl_parse_encode', 'Mf.impl_error_only', 'Mf.run_refines', 'Mf.next_step', 'Mf.part_stream_refines', 'Mf.next_skip',
+    'Mf.gd_at', 'Mf.gd_read', 'Mf.toDelim_sim', 'Mf.stopAt_drop', 'Mf.runFlat_parse', 'Mf.parseHeaders_err_cte',
+    'Mf.readerStep_map', 'Mf.readerRun_map', 'Mf.readUntil_map', 'Mf.readUntilLoop_map', 'Mf.performRead_map', 'Mf.pipeUntil_map', 'Mf.read_map',
+    'Mf.peek_map', 'Mf.pipe_map', 'Mf.readline_map', 'Mf.readlines_map', 'Mf.exhaust_map',
+    # ---- the reader refinements the bridge rewrites with (FalconModel/ReaderC14.lean, ReaderPublic.lean, PeekProofs.lean)
+    'Rd.public_history_refines_cursor', 'Rd.readerStep_refines', 'Rd.pipeUntil_consume_refines', 'Rd.readUntil_consume_refines',
+    'Rd.readUntil_refines_all', 'Rd.read_refines', 'Rd.fresh_reader',
     # (Mp.reader_* are Rd.read'_refines, Rd.read'_pos_le, Rd.readUntil'_refines restated under prime-free names: the
     #  audit's output parser cannot handle a ' inside a name)
     'Rd.performRead_spec', 'Mp.reader_read_refines', 'Mp.reader_read_pos_le', 'Rd.fillBuffer_abs', 'Rd.fillBuffer_full',
@@ -18,6 +32,27 @@ THEOREMS = [
     'Mp.yields_delim', 'Mp.part_stream_delimiter',
 ]
 STATEMENTS = {
+    'Mf.parse_encode': 'for every list of parts (raw header lines + content), boundary, preamble, epilogue, with or without the final CRLF: if the form is BoundarySafe (the first --boundary of preamble++--boundary is the appended one; the first CRLF--boundary of content++CRLF--boundary is the appended one, for every part), HeadersSafe (no blank line inside a header block, no CRLF inside a line, no Content-Transfer-Encoding other than binary) and WithinLimits, then parseFlat(encodeForm(parts)) = ok [(header dict of the lines, content) for each part], in order; each side condition has a decided witness that it is needed',
+    'Mf.parseAll_encode': 'the same with limits that bite: for boundary-safe forms parseAll(encodeForm(parts)) is the spec function expect(limits, parts): parts come back until a header block exceeds max_body_part_headers_size (checked first), a bad Content-Transfer-Encoding is met, or part max_body_part_count+1 is reached',
+    'Mf.headers_size_limit_exact': 'max_body_part_headers_size = m: parts whose header blocks have at most m bytes (in particular exactly m) are parsed; the first part whose block has more (in particular m+1) raises "incomplete body part headers" after exactly the parts before it',
+    'Mf.headers_cap_exact': 'for ARBITRARY text with its first blank line p bytes in: the header read read_until(CRLFCRLF, n, consume) succeeds iff p <= n and then returns exactly those p bytes and steps over the blank line',
+    'Mf.part_count_limit_exact': 'for ARBITRARY bodies: with max_body_part_count = m > 0 at most m parts are handed out, and the count error is raised only after exactly m parts and only if m > 0',
+    'Mf.part_count_limit_encoded': 'encoded forms: n <= m parts (or m = 0) parse completely; with more parts exactly the first m come back and then "maximum number of form body parts exceeded"',
+    'Mf.parser_terminates': 'for every body, boundary and limits the loop fuel len(body)+1 is never exhausted: every resumption that yields a part has consumed at least the delimiter',
+    'Mf.invalid_is_parse_error_only': 'for EVERY body the flat parser returns: either it reaches the closing delimiter (list(form) = the parts handed out) or it raises one of the four MultipartParseErrors after the parts handed out so far; there is no third outcome',
+    'Mf.next_step': 'one resumption of the generator: for every reader state satisfying the invariant, every lawful source, chunk size >= max(4, len(CRLF--boundary)): Mp.next (pipe_until+consume, peek(2), read(2), read_until(CRLF,0,consume), read_until(CRLFCRLF,max,consume), delimit) returns the same frame, the same headers / the same error kind as Mf.next on the text still to come, and the part stream is delimit(d) of a parent in a good state whose text is the flat cursor',
+    'Mf.part_stream_refines': '(delimit_refines_subcursor) any history of public reader operations (read, peek, read_until, pipe_until, readline(s), pipe, exhaust) on delimit(parent, d) observes exactly what a flat cursor over the text up to the first d observes, and leaves the parent in a good state with its cursor NOT beyond that first d (a delimited reader never passes its delimiter)',
+    'Mf.next_skip': 'resuming the generator from anywhere inside the previous part\'s content (not beyond its delimiter) is the same as resuming it from the start of that content',
+    'Mf.readerRun_map': 'every public reader operation is natural in its source: for a simulation f of sources (commutes with read for positive sizes, preserves bound), running a history on mapR f r is running it on r and mapping the result; this transfers the reader theorems from the lawful presentation GD of a delimited source to the real R (Delim s)',
+    'Mf.next_refines_flat': 'THE BRIDGE: for any reader in a good state over ANY lawful source (every transport chunking / short-read pattern), chunk size >= len(CRLF--boundary), limits >= 0 (or -1), and ANY application behaviour between resumptions that is a history of public reader operations on the part stream: iterating Mp.next hands out exactly the parts Mf.parseAll finds in the text still to come (same header dicts, same order, same StopIteration / MultipartParseError kind) and every part stream behaves operation by operation as a flat cursor over that part\'s content',
+    'Mf.next_refines_flat_fresh': 'the same for BufferedReader(read, max_stream_len, chunk_size) freshly constructed: the text is the first max_stream_len bytes the source delivers',
+    'Mf.consumption_independent': 'whatever two applications do with the part streams, they are handed the same number of parts with the same header dicts in the same order and iteration ends the same way, namely as parseAll says',
+    'Mf.consumption_full_read': 'an application that pipes every part to its end sees exactly the contents parseAll computes',
+    'Mf.chunking_independent': 'two readers over two arbitrary lawful sources (possibly of different types), in arbitrary buffer states, same chunk size, same text still to come, same scripts: identical parts, identical observations on every part stream, identical end',
+    'Mf.chunking_independent_parts': 'with different chunk sizes (each >= the delimiter length) and different scripts still the same header dicts and the same end',
+    'Mf.impl_parse_encode': 'end to end: a safe form encoded by the reference encoder, delivered by any lawful source in any chunking, consumed in any way: the model of MultipartForm.__iter__ hands out exactly the encoded parts and StopIteration, each part stream being a flat cursor over exactly the encoded content',
+    'Mf.impl_error_only': 'under the hypotheses of the bridge, iterating Mp.next over the buffered reader - whatever the body holds, however chunked, however consumed - ends with StopIteration or one of the four MultipartParseErrors: never out of fuel (no hang), never ValueError',
+    'Rd.public_history_refines_cursor': '(C14) every history of public operations on one reader refines the flat cursor; used here on the lawful presentation of the part stream',
     'Rd.performRead_spec': '_perform_read(size) returns the next min(size, remaining, available) bytes of the source whatever short reads the source makes, and accounts for exactly those bytes',
     'Mp.reader_read_refines': "(= Rd.read'_refines) _read(n) (all four branches) returns the next n bytes of the flat text (buffer rest ++ unread source) and leaves exactly the rest; used by Mp.next for stream.read(2) and by every part.stream.read / get_data",
     'Mp.reader_readUntil_refines': "(= Rd.readUntil'_refines) _read_until(d, size) without consuming: for every buffer state, source chunking, chunk size and delimiter of length 1..chunk size it returns the text up to the first occurrence of d, or size bytes, or the end, whichever comes first, and leaves the cursor right after the returned bytes; this is what every read of a delimited part stream (delimit(CRLF--boundary)) reduces to, so a part never contains or passes its delimiter",
@@ -39,12 +74,13 @@ TRUSTED = [
     'CPython json / urllib for the expected value of get_media() on application/json and urlencoded parts',
 ]
 ASSUMPTIONS = [
+    'Lean side of the bridge: chunk size >= len(CRLF--boundary) and >= 4 (Mf.next_refines_flat hypothesis hc); max_body_part_headers_size >= 0 or -1; the application\'s behaviour on a part stream is a (for the given body fixed) list of public reader operations with valid arguments (sizes None/-1/>= 0, delimiters non-empty and <= chunk size); get_data/get_text/get_media (BodyPart accessors, max_body_part_buffer_size) are not operations of the reader model',
     'reference forms are boundary-safe: CRLF--boundary occurs nowhere in CRLF+content, the preamble does not contain --boundary and ends with CRLF, names/filenames contain no double quote, backslash, CR or LF',
     'reader chunk sizes are >= len(CRLF--boundary) (always true for the default 32 KiB / 8 KiB and boundaries <= 70 bytes); smaller chunk sizes are exercised only in the correspondence, where next() raises ValueError on both sides',
     'the async parser (falcon/asgi/multipart.py) has no Lean model of its own: it is tied to Mp.next by a second correspondence on observable outputs (headers, bytes returned by part-stream operations, error kinds) and to the sync parser by the agreement oracle',
     'the mapping of DelimiterError to MultipartParseError, parse_header/RFC 5987 decoding of name/filename and the BodyPart accessors are outside Mp.next and are carried by the oracle only',
 ]
-RULE = ('(a) correspondence: forms of 0-4 parts over {a,b,CR,LF,-,:,space,boundary bytes} with valid/odd header lines, near-miss delimiters, 25% single/double byte edits, 10% truncations, '
+RULE = ('(a0) cursor-level correspondences: reference-encoded forms (oracle generator and forms with arbitrary CRLF-free header lines, 0-5 parts, boundaries 1..70), 40% intact / 40% 1-2 byte edits / 20% truncated, 12% messy; limits at block-size-1/size/size+1 and count n-1/n/n+1; reader chunk sizes from len(delimiter); every transport chunk plan; each part read to its end by read()/pipe()/read(k) loop/readline loop/read_until loop (sync) or read()/readall()/pipe()/read(k) loop/async iteration (async); (a) correspondence: forms of 0-4 parts over {a,b,CR,LF,-,:,space,boundary bytes} with valid/odd header lines, near-miss delimiters, 25% single/double byte edits, 10% truncations, '
         'declared length +-, short reads, chunk sizes from len(delimiter)-1 to 64, header-size limits 20/40/8192, part-count limits 0/1/2/64, interleaved next/read/peek/read_until/readline/pipe on the part stream; '
         '(b) oracle: reference-encoded forms of 0-5 parts (binary contents built from CR, LF, dashes, boundary prefixes, NUL, 0xff; json/urlencoded/text parts; 0..70000 bytes), boundaries of length 1..70 over the RFC 2046 bchars (quoted when needed, trailing blanks), '
         'optional preamble/epilogue/final CRLF, plain / UTF-8 / RFC 5987 filenames, ignored extra headers, header-name case; x transport chunking (1 byte .. whole, two-chunk splits at every offset for small bodies) x reader chunk size '
@@ -52,12 +88,14 @@ RULE = ('(a) correspondence: forms of 0-4 parts over {a,b,CR,LF,-,:,space,bounda
         'x entry point (handler.deserialize[_async] on a raw stream / BufferedReader / BoundedStream, Request.get_media, full App call); '
         '(c) random single/double edits (delete, substitute, insert, truncate - also by Content-Length only) of valid bodies, plus for small bodies every single-byte deletion, every truncation and every substitution by each of CR LF - : ; space " = NUL 0xff 0xc3 A * (3 of them per position in quick), judged by a flat-buffer reference splitter; '
         'non-trivial = at least one part was yielded or a parse error was raised; distinct = distinct (body, boundary, options, script, chunking, path)')
-PARTIAL = ('The cursor-level theorems of DESIGN.md section 8/C13 (parse_encode, consumption_independent, headers_size_limit_exact, buffer_limit_exact, '
-           'invalid_is_parse_error_only, sync_async_agree) are NOT yet proved in Lean; part_count_limit_exact is proved at the level of the model Mp.next (for arbitrary streams), '
-           'together with the delimiter form and generator-termination facts. What else is machine-checked is chunk/consumption independence of every reader call Mp.next makes '
-           '(the Rd.* refinement theorems listed; the consume_delimiter tail for 3 of the 5 loop exits; delimit() itself is a reader whose source is the parent\'s read_until, so it inherits readUntil\'_refines '
-           'but the composition lemma delimit_refines_subcursor is not stated). The step from those to "the parts seen are the parts encoded", the exact limits, error-kind totality and the whole async parser '
-           'are carried by the two correspondences (Mp.next = real sync parser incl. raw-read sizes; Mp.next = real async parser on observable outputs) and by the independent oracle (reference encoder + flat-buffer splitter).')
+PARTIAL = ('Proved in Lean: parse_encode (with decided necessity witnesses), parseAll_encode with biting limits, headers_size_limit_exact, part_count_limit_exact (arbitrary and encoded bodies), '
+           'parser_terminates, invalid_is_parse_error_only on the flat parser Mf; and the full bridge next_refines_flat (Mp.next over the buffered reader = Mf on the text, every lawful source/chunking, '
+           'every history of public reader operations on the part streams) with consumption_independent, chunking_independent, impl_parse_encode. '
+           'NOT proved in Lean: (1) the async parser falcon/asgi/multipart.py has no Lean model - sync_async_agree rests on the two async correspondences (Mp.next and Mf.parseAll vs the real async parser) and the agreement oracle; '
+           '(2) buffer_limit_exact (max_body_part_buffer_size in BodyPart.get_data/get_text/get_media), parse_header / RFC 5987 decoding of name/filename, content_type, secure_filename and the mapping '
+           'DelimiterError -> MultipartParseError are outside Mp.next/Mf and are carried by the oracle only; (3) the bridge needs chunk size >= len(CRLF--boundary) (below it next() raises ValueError: correspondence only) '
+           'and max_body_part_headers_size >= 0 or -1; (4) application behaviour is a list of reader operations fixed per body (an adaptive application performs some such list on each body, so this loses nothing for a given run). '
+           'Mp.next = the real sync parser and Mf.parseAll = the real sync/async parsers are correspondences (differential), not proofs about Python.')
 JOBS = {'quick': 4, 'thorough': 16}
 
 CRLF = b'\r\n'
@@ -1176,11 +1214,14 @@ def _short(x, n=160):
     return s if len(s) <= n else s[:n] + f'...({len(s)} chars)'
 
 
-LEVEL_TEXT = ('Machine-checked (Lean 4) refinement of every buffered-reader call made by the multipart parser model Mp.next to a flat cursor, for every transport chunking, chunk size and '
-              'history of reads (performRead_spec, read\'_refines, readUntil\'_refines, peek_refines, history_refines_cursor, the consume_delimiter tail lemmas). Mp.next itself - a transcription of '
-              'MultipartForm.__iter__ as a resumable step function over that reader model - is tied to the real sync parser (headers, every byte of every part-stream operation, error kinds, sizes asked of the raw stream) '
-              'and to the real async parser (observable outputs) by differential correspondences on every run. An independent oracle (reference encoder and flat-buffer splitter written from the statement) '
+LEVEL_TEXT = ('Machine-checked (Lean 4): (i) on the flat parser Mf (MultipartForm.__iter__ with every reader call replaced by its cursor meaning) and the reference encoder Mf.encodeForm: parse_encode for all '
+              'boundary-/header-safe forms (each side condition with a decided witness of necessity), exact header-size and part-count limits, termination and error classification for arbitrary bodies; '
+              '(ii) the bridge next_refines_flat: Mp.next - the transcription of MultipartForm.__iter__ as a resumable step function over the buffered-reader model - computes Mf on the text still to come for every lawful '
+              'source (every transport chunking), every buffer state, chunk size >= delimiter length and every history of public reader operations on the part streams (delimit() handled by a lawful presentation of the '
+              'delimited source + naturality of all reader operations in the source), hence consumption_independent, chunking_independent, impl_parse_encode. '
+              'Mp.next is tied to the real sync parser (headers, every byte of every part-stream operation, error kinds, sizes asked of the raw stream) and to the real async parser (observable outputs), '
+              'Mf.encodeForm to the harness reference encoder (byte for byte) and Mf.parseAll to the real sync and async parsers (parts, contents, outcome on valid/edited/truncated/messy bodies) by differential correspondences on every run. An independent oracle (reference encoder and flat-buffer splitter written from the statement) '
               'decides parse/encode round trips, consumption and chunking independence, the three limits at their thresholds, damaged bodies and WSGI/ASGI agreement through the real handler, Request and App.')
-LEVEL_NOTE = ('PARTIAL: the cursor-level theorems about the parser itself (parse_encode, consumption_independent, limit exactness, invalid_is_parse_error_only, sync_async_agree) are not proved; '
-              'they rest on the correspondences and the oracle. Trusted: Lean kernel + standard axioms, the harness, the reference encoder/splitter.')
-TECHNIQUE = 'Lean 4 refinement proofs for the reader layer + differential correspondence of the parser model vs. real sync and async parsers + reference-encoder oracle'
+LEVEL_NOTE = ('PARTIAL: the async parser has no Lean model (sync_async_agree rests on correspondences + oracle); buffer_limit_exact and the BodyPart accessors (name/filename/RFC 5987/content_type) are oracle-only; '
+              'model = code is a differential correspondence. Trusted: Lean kernel + standard axioms, the harness, the reference encoder/splitter.')
+TECHNIQUE = 'Lean 4: round-trip/limit/termination proofs on a flat parser + refinement bridge from the parser model over the buffered reader (all chunkings, all consumption histories) + differential correspondences of both models vs. real sync and async parsers + reference-encoder oracle'
